@@ -1472,7 +1472,7 @@ class C20(fw.Check):
         # string_form_line_feed) have no branch: a regression is a VIOLATION.
         st = case.get("stream")
         if st in ("creator", "sets"):
-            return self.escape_key(case, obs, failure)
+            return None          # codepoint_escape_in_value was repaired by 6c1fc7c: a regression is a VIOLATION
         if st == "reuse":
             return None
         m = re.match(r"combination (.*): missing (\d+) rows, (\d+) rows that do not carry the values$", failure)
